@@ -19,10 +19,11 @@ class Base:
 
 
 class Sub1(Base):
-    def __init__(self, w: int = 1, z: float = 0.5):
+    def __init__(self, w: int = 1, z: float = 0.5, k: Optional[int] = 4):
         self.w = w
         self.z = z
-        LOG.append((type(self).__name__, dict(w=w, z=z), self))
+        self.k = k
+        LOG.append((type(self).__name__, dict(w=w, z=z, k=k), self))
 
 
 class Sub2(Base):
@@ -73,3 +74,4 @@ class Outer:
 class Req:
     a: int
     b: Optional[float] = None
+    c: Optional[int] = 3  # a field that accepts None although its default is not None
